@@ -372,3 +372,6 @@ mod test {
         assert_eq!(lines[0], "GET http://reddit.com/r/rust HTTP/1.1");
     }
 }
+
+#[cfg(kani)]
+include!(concat!(env!("ATTOHTTPC_VERIF_HARNESS"), "/request.rs"));
